@@ -5,7 +5,7 @@ Each property has its own program generator (what histories are executed on the 
 clauses of spec/XoHeapTrace.tla (OWN below).  A history whose first failing step fails only clauses of OTHER
 properties is abandoned (counted under abandoned_precondition), never reported under this property's id.
 """
-import collections, json, os, random, shutil, time
+import collections, json, os, random, re, shutil, time
 from concurrent.futures import ThreadPoolExecutor
 from . import common as C
 from . import xtypes as X
@@ -15,7 +15,7 @@ PROPERTIES = ["C01", "C03", "C05", "C06", "C08", "C09", "C10", "C11", "C20"]
 
 
 # ----------------------------------------------------------------------------- clause ownership
-def owners(op, clause):
+def owners(op, clause, e=None, nbuf0=3):
     """every property a failing clause belongs to: the primary owner plus the properties whose statement the same
     observation contradicts as well (a copy that does not decode to the source's value breaks C09 AND the format C05;
     an assignment that writes into another object breaks C03's frame AND C10's locality AND, for references, C08)"""
@@ -26,6 +26,12 @@ def owners(op, clause):
         o |= {"C03", "C10"}
     if op == "set" and clause.startswith("set:other-object-changed"):
         o |= {"C10", "C03"}
+    if clause.startswith("free:"):
+        o |= {"C10", "C08", "C03"}       # an assignment released storage another element / reference still uses
+    if op == "copy" and clause.startswith("size:"):
+        o |= {"C05", "C09"}              # the copy's stored size is not its extent
+    if clause.startswith("alloc:") and e is not None and any(a[0] > nbuf0 for a in e.get("alloc", [])):
+        o |= {"C20"}                     # an unpickled buffer handed out storage that is in use
     if op == "new" and (clause.startswith("read:") or clause.startswith("ref:new-target-value")):
         o |= {"C01"}          # a nested accessor of the object just built does not return the value it was built from
     return o
@@ -37,6 +43,8 @@ def owner(op, clause):
         return "C20"
     if clause.startswith("alloc:"):
         return "C04"
+    if clause.startswith("free:"):
+        return "C10"
     if clause.startswith("fmt:"):
         return "C05"
     if clause.startswith("nest:") or clause.startswith("size:"):
@@ -57,6 +65,8 @@ def owner(op, clause):
         return "C11"
     if clause.startswith("grow:") or clause.startswith("noise:"):
         return "C08" if "ref" in clause else "C10"
+    if clause.startswith("stale:"):
+        return "C06"
     if clause.startswith("read:"):
         route = clause.split(":")[1]
         if op == "new":
@@ -131,6 +141,8 @@ SUITE = [
     X.struct(I8, X.ref(X.arr(F64, [3])), X.ref(X.struct(F64, I16)), X.ref(X.arr(F64, [3]))),          # references to statically sized targets
     X.arr(X.ref(X.struct(I64, F64)), [-1]),
     X.struct(X.arr(X.ref(X.arr(I16, [2, 2])), [3]), X.STR),
+    X.struct(I64, X.arr(F64, [-1]), X.arr(F64, [-1]), X.STR, X.STR),       # several dynamic fields of one type: same size, other distribution
+    X.struct(X.arr(X.STR, [-1]), I8, X.arr(X.STR, [-1])),
 ]
 
 
@@ -206,6 +218,12 @@ def prog_set(w, rng, refs=True, allow=("null", "alias", "new", "foreign")):
             w.grow(rng.randrange(2))
         else:
             key = rng.choice(list(w.handles))
+            if x > 0.85:                # the whole object, in place, through whichever handle is retained
+                r = w.update(key, allow=allow)
+                if r is not None:
+                    if r is False and w.steps[-1]["op"] == "set" and w.steps[-1]["exc"]:
+                        return
+                    continue
             if w.set(key, allow=allow) is False and w.steps[-1]["op"] == "set" and w.steps[-1]["exc"]:
                 return
 
@@ -236,7 +254,14 @@ def prog_copy(w, rng):
             if w.set(pk, target=accp, no_from=rng.random() < 0.7) is False and w.steps[-1].get("exc"):
                 return
         for _ in range(rng.randint(0, 3)):
-            if w.set(rng.choice([src, nk]), allow=("null", "alias", "new")) is False and w.steps[-1].get("exc"):
+            side = rng.choice([src, nk])
+            if rng.random() < 0.25:     # either side as a whole, in place: the other side (and whatever it shares in Python) is unaffected
+                r = w.update(side, allow=("null", "alias", "new"))
+                if r is not None:
+                    if r is False and w.steps[-1].get("exc"):
+                        return
+                    continue
+            if w.set(side, allow=("null", "alias", "new")) is False and w.steps[-1].get("exc"):
                 return
 
 
@@ -421,16 +446,52 @@ def prog_view_copy(w, rng):
                 return
 
 
+_MULTI = [
+    X.struct(I64, X.arr(F64, [-1]), X.arr(F64, [-1]), X.STR, X.STR),
+    X.struct(X.arr(X.STR, [-1]), I8, X.arr(X.STR, [-1])),
+    X.struct(X.arr(I8, [-1]), X.arr(I8, [-1]), X.arr(I8, [-1])),
+    X.arr(X.arr(I16, [-1]), [-1]),
+    X.arr(X.struct(X.STR, X.STR, I8), [2]),
+    X.struct(I8, X.struct(X.arr(F64, [-1]), X.arr(F64, [-1])), X.arr(X.arr(I8, [-1]), [-1])),
+]
+
+
+def prog_update(w, rng):
+    """C06 / C09 / C10: an object, copies constructed from it (handles that were built from one another), then whole-object
+    in-place updates of one of them through a retained handle with values of the same size whose dynamic parts are
+    distributed differently; every other object, through every retained handle, is unaffected"""
+    tx = rng.choice(_MULTI) if rng.random() < 0.8 else pick_type(rng, False)
+    k = w.new(tx, rng.randrange(2), mindim=1)
+    if k is None:
+        return
+    group = [k]
+    for _ in range(rng.randint(1, 2)):
+        nk = w.copy(rng.choice(group), rng.randrange(len(w.bufs)), whole=True)
+        if nk is None:
+            return
+        group.append(nk)
+    for _ in range(rng.randint(2, 5)):
+        side = rng.choice(group)
+        if rng.random() < 0.7:
+            r = w.update(side, allow=("null", "alias", "new"), from_p=0.8)
+            if r is not None:
+                if r is False and w.steps[-1].get("exc"):
+                    return
+                continue
+        if w.set(side, allow=("null", "alias", "new")) is False and w.steps[-1].get("exc"):
+            return
+
+
 PROGRAMS = {
     "C01": lambda w, rng: (prog_repeat if rng.random() < 0.2 else prog_construct)(w, rng),
     "C05": lambda w, rng: (prog_construct if rng.random() < 0.6 else prog_copy)(w, rng),      # copy-construction writes objects too
     "C03": lambda w, rng: (prog_construct if rng.random() < 0.4 else prog_set)(w, rng),
-    "C06": lambda w, rng: (prog_construct if rng.random() < 0.2 else (prog_view_copy if rng.random() < 0.25 else (prog_set if rng.random() < 0.6 else prog_copy)))(w, rng),
-    "C10": lambda w, rng: prog_set(w, rng),
+    "C06": lambda w, rng: (prog_construct if rng.random() < 0.2 else (prog_view_copy if rng.random() < 0.2 else (prog_update if rng.random() < 0.2 else (prog_set if rng.random() < 0.6 else prog_copy))))(w, rng),
+    "C10": lambda w, rng: (prog_update if rng.random() < 0.1 else prog_set)(w, rng),
     "C08": lambda w, rng: (prog_repeat if rng.random() < 0.15 else prog_refs)(w, rng),
     "C11": prog_err,
     "C20": prog_pickle,
-    "C09": lambda w, rng: (prog_view_copy if rng.random() < 0.15 else prog_copy)(w, rng),
+    "C09": lambda w, rng: (prog_view_copy if rng.random() < 0.15 else (prog_update if rng.random() < 0.12 else prog_copy))(w, rng),
 }
 COUNTS = {"quick": 500, "thorough": 8000}
 
@@ -537,6 +598,32 @@ def step_subject(h, e):
 
 
 # ----------------------------------------------------------------------------- the check
+def hybrid_copies(run):
+    """C09 names HybridClass.copy() as well: the copy transitions of the hybrid-object model (spec/XoHybrid.tla, engine
+    vlib/hybrid.py: every history TLC enumerates is replayed on the real library) are judged here too; what fails at a
+    copy step there (value, ownership of the nested and referred-to objects, independence of later writes) is a C09 violation"""
+    import subprocess, sys
+    t1 = time.time()
+    d = os.path.join(run.tmp, "hybrid")
+    env = dict(os.environ, VERIF_EVIDENCE_DIR=os.path.join(d, "evidence"), VERIF_OUT_DIR=os.path.join(d, "out"), VERIF_SEED=str(run.seed))
+    p = subprocess.run([sys.executable, "-m", "vlib.main", "C18", "--tier", "quick"], cwd=C.VERIF, env=env, capture_output=True, text=True, timeout=3000)
+    if p.returncode not in (0, 1):
+        raise C.MachineryError("hybrid-object engine failed:\n" + (p.stdout + p.stderr)[-3000:])
+    n = 0
+    for ln in p.stdout.splitlines():
+        m = re.match(r"VIOLATION property=C18 replay=(\S+) key=(copy:\S+)", ln)
+        if m:
+            rec = json.load(open(m.group(1)))
+            run.report("hybrid-" + m.group(2), rec["desc"], dict(engine="hybrid", **rec["replay"]))
+            n += 1
+    try:
+        ev = json.load(open(os.path.join(d, "evidence", "C18.json")))
+        run.notes["hybrid_copy"] = dict(replayed_transitions=ev["coverage"].get("traces_validated_against_impl"), copy_violations=n, wall=round(time.time() - t1, 1))
+        run.cov["traces_validated_against_impl"] += ev["coverage"].get("traces_validated_against_impl", 0)
+    except Exception:       # noqa
+        pass
+
+
 def check(pid, argv=None):
     run = C.Run(pid, argv)
     run.assumptions += [
@@ -544,6 +631,16 @@ def check(pid, argv=None):
         "byte diffs, allocate/free logs and the accessor read-backs are recorded faithfully by the harness (vlib/world.py)",
         "numeric/UTF-8 encodings are NumPy's/Python's: values are compared as byte strings",
         "64-bit words are decoded by TLC only within +-2^23 (model-sized buffers)"]
+    if run.replay and json.load(open(run.replay))["replay"].get("engine") == "hybrid":
+        from . import hybrid
+        rp = json.load(open(run.replay))["replay"]
+        C.use_repo()
+        r = hybrid.replay_group(rp["init"], rp["variant"], rp["hist"], rp["cmd"], [tuple(a) for a in rp["alts"]])
+        run.cov["traces_validated_against_impl"] = 1
+        for key, desc in r["findings"]:
+            if key.startswith("copy:"):
+                run.report("hybrid-" + key, desc, rp)
+        run.finish()
     if run.replay:
         g = json.load(open(run.replay))["replay"]["gen"]
         if g.get("kind") == "model":
@@ -562,6 +659,8 @@ def check(pid, argv=None):
             t1 = time.time()
             observe.observe(run)
             run.notes["t_observe_repo_tests"] = round(time.time() - t1, 1)
+        if pid == "C09":
+            hybrid_copies(run)
         n = COUNTS[run.tier]
         t1 = time.time()
         with C.memory_guard():
@@ -612,9 +711,9 @@ def check(pid, argv=None):
         if pos == 0:
             continue
         e = h["steps"][pos - 1]
-        mine = [c for c in clauses if pid in owners(e["op"], c)]
+        mine = [c for c in clauses if pid in owners(e["op"], c, e)]
         for c in clauses:
-            if pid not in owners(e["op"], c):
+            if pid not in owners(e["op"], c, e):
                 abandoned[owner(e["op"], c) + ":" + c] += 1
         if mine:
             sub = step_subject(h, e)
